@@ -3605,10 +3605,14 @@ def distributed_shampoo(
     precond_grad_norm = jnp.linalg.norm(precond_grad)
 
     if graft_type is not GraftingType.NONE:
-      multiplier = (grafting_update_norm / (precond_grad_norm + _EPSILON))
+      # Normalize first, then transplant the norm: the quotient
+      # grafting_update_norm / (precond_grad_norm + _EPSILON) overflows float32
+      # when the preconditioned gradient vanishes under a large gradient, and
+      # 0 * inf would poison the update and the momentum with NaN.
+      shampoo_update = (precond_grad /
+                        (precond_grad_norm + _EPSILON)) * grafting_update_norm
     else:
-      multiplier = 1.0
-    shampoo_update = precond_grad * multiplier
+      shampoo_update = precond_grad
 
     shampoo_update_with_wd = shampoo_update
     grafting_update_with_wd = grafting_update
